@@ -24,6 +24,7 @@ from ..util import (
     is_categorical,
     is_pyarrow_backed,
     mean_from_sum_count,
+    pandas_type_from_array,
     parallel_map,
     series_is_numeric,
     series_is_timestamp,
@@ -278,7 +279,14 @@ class GroupBy:
         # first try monotonic (increasing) factorization.
         # Optimization for thinks like date/time buckets, cumulative counts etc.
         # Exits as soon as it detects non-monotonicity and uses empty arrays to avoid wasted memory
-        cutoff, mono_codes, mono_uniques = monotonic_factorization(group_key)
+        # object arrays (e.g. python strings) cannot be passed to compiled code
+        is_typed = pandas_type_from_array(group_key).kind in "biufmM" or (
+            isinstance(group_key, np.ndarray) and group_key.dtype.kind in "US"
+        )
+        if is_typed:
+            cutoff, mono_codes, mono_uniques = monotonic_factorization(group_key)
+        else:
+            cutoff, mono_codes, mono_uniques = 0, np.empty(0, dtype=np.uint32), None
         mono_codes = mono_codes[:cutoff]
         if cutoff == len(group_key):
             # group_key is fully monotonic
@@ -289,7 +297,10 @@ class GroupBy:
         if use_monotonic_piece:
             group_key = group_key[cutoff:]
 
-        group_key_list = _val_to_numpy(group_key, as_list=True)
+        if is_typed or is_pyarrow_backed(group_key):
+            group_key_list = _val_to_numpy(group_key, as_list=True)
+        else:
+            group_key_list = [_val_to_numpy(group_key)]
         if len(group_key_list) == 1:
             group_key_chunks = np.array_split(
                 group_key_list[0], self._n_threads_for_key_factorization
